@@ -337,3 +337,32 @@ def c06(ctx, api):
                       'snapshots of all documents (including spare slice capacity) and all earlier results; a history is non-trivial '
                       'when every step has a single admissible outcome',
                       extra={'model_checks': ['Immutable (action property)', 'Pure', 'StaticAtCompile', 'StaticIgnoresDoc', 'Closed']})
+
+
+# --------------------------------------------------------------------- C07
+@plan('C07', need_race=True)
+def c07(ctx, api):
+    acc = Acc()
+    thorough = ctx['tier'] == 'thorough'
+    consts = {'Emit': 'TRUE', 'Prop': '"C07"', 'Gates': 3 if thorough else 2, 'NCallSets': 7 if thorough else 6,
+              'Rounds': 200 if thorough else 25}
+    st, summ = api['run_tlc_to_harness'](ctx, 'conc', 'APIConc', cfg(constants=consts), timeout=3000,
+                                         harness_args=['-timeout', '10s'])
+    acc.add('APIConc: every interleaving of 2 goroutines x 2 calls (%d gates per call)%s on shared expressions and documents, '
+            'replayed with the evaluate-entry hook as gate' % (consts['Gates'], ' and 3 x 2' if thorough else ''), st, summ)
+    # the same call sets ungated under the race detector
+    saved = ctx['harness']
+    ctx['harness'] = ctx['harness_race']
+    ctx['harness_env'] = {'GORACE': 'halt_on_error=1 exitcode=66'}
+    try:
+        consts2 = dict(consts, Gates=1)
+        st, summ = api['run_tlc_to_harness'](ctx, 'race', 'APIConc', cfg(constants=consts2), timeout=3000,
+                                             harness_args=['-only', 'race', '-timeout', '120s', '-workers', '4'])
+    finally:
+        ctx['harness'] = saved
+        ctx['harness_env'] = {}
+    acc.add('the same call sets from 8 goroutines x %d rounds, ungated, in a -race build of the library' % consts['Rounds'], st, summ)
+    return acc.result('a case is one complete interleaving (schedule) of the APIConc machine, or one ungated call set under the race '
+                      'detector; non-trivial when every call has a single admissible outcome',
+                      extra={'model_checks': ['Pure in every interleaved state'],
+                             'limit': 'schedule control is at evaluate-entry granularity; below that the Go race detector is the oracle'})
